@@ -345,25 +345,27 @@ def str_reverse(s):
     raise Unsupported('reverse of symbolic string')
 
 
-class SplitResult(SymObject):
-    """s.split(sep) for a symbolic s and concrete one-character-or-longer sep (no maxsplit)."""
-    py_type = list
-
-    def __init__(self, s, sep):
-        self.s, self.sep = lift(s), sep
-
-    def count_sep_is(self, n):
-        raise Unsupported('split count')
-
-    def first(self):
-        idx = z3.IndexOf(self.s.t, z3.StringVal(self.sep), 0)
-        return Sym(z3.If(idx < 0, self.s.t, z3.SubString(self.s.t, 0, idx)), 'str')
-
-
 def str_split(it, s, sep=None, maxsplit=-1):
     if sep is None or is_sym(sep) or maxsplit != -1:
         raise Unsupported('split form')
     return SplitResult(s, sep)
+
+
+def _late_split_result():
+    class SplitResult(SymSeq):
+        """s.split(sep) for a symbolic s and a concrete sep: only element 0 (the text before the first sep, or all
+        of s) is modelled"""
+        py_type = list
+
+        def __init__(self, s, sep):
+            self.s, self.sep = lift(s), sep
+
+        def getitem(self, it, i):
+            if is_sym(i) or i != 0:
+                raise Unsupported('split()[i] for i != 0 on a symbolic string')
+            idx = z3.IndexOf(self.s.t, z3.StringVal(self.sep), 0)
+            return Sym(z3.If(idx < 0, self.s.t, z3.SubString(self.s.t, 0, idx)), 'str')
+    return SplitResult
 
 
 SYM_STR_METHODS = {
@@ -1216,6 +1218,9 @@ class SymSeq(SymObject):
 
     def compare(self, it, op, other, reflected):
         return NotImplemented
+
+
+SplitResult = _late_split_result()
 
 
 # truthiness hook for SymObjects with a `truth` method
